@@ -24,6 +24,12 @@ pub fn gen_dir(rng: &mut Rng, n: usize, leafy: bool) -> Vec<indep::Entry> {
 	es
 }
 
+pub fn find_line(col: &mut Collector, es: &[indep::Entry], t: u64) {
+	let v3 = to_v3(es);
+	let r = guarded(|| Ok(v3.find_tile(t)));
+	col.out.line(&format!("pmdir.find {} {t} => {}", fmt_entries(es), outcome(r, |o| o.map_or("none".into(), |e| fmt_entry(&e)))));
+}
+
 pub fn lines(col: &mut Collector, rng: &mut Rng, coords: &[(u8, u32, u32)], thorough: bool) {
 	// tile ids: coordinates of the generated sets, extremes of every level, random deep coordinates
 	let mut cs: Vec<(u8, u32, u32)> = coords.to_vec();
